@@ -69,6 +69,8 @@ def check(ctx):
         witness.run_witness(ctx, "c01_spawn", ctx.prog.extract_info["target"])
         witness.run_witness(ctx, "c01_spawn_static", ctx.prog.extract_info["target"])
     worker_threads_rule(ctx)
+    shared.check_cancel_consumes(ctx)
+    shared.mpsc_fast_bulk_contiguous(ctx)
     shared.no_nested_run_under_guard(ctx)
 
 INF = "inf"
